@@ -16,7 +16,7 @@
    equals RFC 9106's B[i][j] recurrence; the model of that loop mirrors src/argon2.rs, reproduces
    both RFC 9106 test vectors by computation (below) and is run against the crate and libsodium
    by the check. *)
-From Dryoc Require Import Spec.Argon2 Impl.Argon2 Gen.Kernels Refine.Argon2 Refine.Argon2Safe Refine.Argon2G Refine.Argon2Gen.
+From Dryoc Require Import Spec.Argon2 Impl.Argon2 Gen.Kernels Refine.Argon2 Refine.Argon2Safe Refine.Argon2G Refine.Argon2Rfc Refine.Argon2Gen.
 Import Argon2Impl.
 Open Scope Z_scope.
 
@@ -114,6 +114,32 @@ Theorem C09_permutation_from_source : forall (prev_block ref_block next_block : 
    let block_r := fold_left round_gen argon2_col_indices block_r in
    xor_block block_tmp block_r) = fill_block prev_block ref_block next_block with_xor.
 Proof. exact fill_block_gen. Qed.
+
+(* the whole function: for every accepted parameter set (and a lane of at most 2^32 / 7 * 4 blocks, i.e. less
+   than 2.2 TiB of memory) crypto_pwhash returns RFC 9106's Argon2i / Argon2id tag (Spec/Argon2.v: H0, the
+   first two blocks through H', every B[j] = G(B[(j - 1) mod q], B[z]) in order over slices and passes with the
+   address blocks of the data-independent mode, the tag through H'), p = 1, t = opslimit, m = memlimit / 1024 *)
+Theorem C09_pwhash_is_rfc9106 : forall (outlen : nat) pwd salt opslimit memlimit alg,
+  Z.of_nat outlen < 4294967295 -> Z.of_nat (length pwd) <= MAX_U32 -> Z.of_nat (length salt) <= MAX_U32 ->
+  pwhash_params_ok outlen pwd salt opslimit memlimit -> alg = 1 \/ alg = 2 ->
+  7 * (memlimit / 1024 / 4) <= 2 ^ 32 ->
+  crypto_pwhash outlen pwd salt opslimit memlimit alg =
+  Ok (Argon2Spec.argon2 alg opslimit (memlimit / 1024) outlen pwd salt [] []).
+Proof. exact crypto_pwhash_is_rfc. Qed.
+
+(* the address table of the data-independent mode is the RFC's: word (k mod 128) of G(0, G(0, input block with counter k / 128 + 1)) *)
+Theorem C09_addresses_are_rfc : forall I pass lane slice k, 0 <= segment_length I < 2 ^ 62 -> 0 <= k < segment_length I ->
+  nthz (pseudo_rands (generate_addresses I pass lane slice)) (Z.to_nat k) =
+  nthz (Argon2Spec.address_block pass lane slice (memory_blocks I) (passes I) (ty I) (k / 128 + 1)) (Z.to_nat (k mod 128)).
+Proof. exact generate_addresses_spec. Qed.
+
+(* the specification itself on a libsodium answer (crypto_pwhash, Argon2id, 32 bytes, empty password, opslimit 1,
+   memlimit 8192): a test of the specification by computation, not a theorem *)
+Example C09_spec_known_answer :
+  Argon2Spec.argon2 2 1 8 32 [] [0x1e; 0x5d; 0x64; 0x4f; 0xa7; 0x8f; 0x1f; 0xc4; 0x8a; 0x14; 0xf7; 0x75; 0x99; 0x8d; 0xf6; 0x8b] [] [] =
+  [0x1d; 0x16; 0x21; 0x9b; 0x1b; 0x82; 0x8d; 0x4c; 0xda; 0x04; 0x26; 0x18; 0x10; 0xc7; 0x6d; 0x90;
+   0x62; 0xb3; 0xc4; 0xf3; 0xd2; 0x48; 0x44; 0xff; 0x11; 0x9a; 0x4a; 0xbd; 0x28; 0x9a; 0xb8; 0x89].
+Proof. vm_compute. reflexivity. Qed.
 
 Theorem C09_verify_iff : forall stored salt hl ops mem alg pwd,
   verify stored salt hl ops mem alg pwd = Ok tt <-> hash_with_salt pwd salt hl ops mem alg = Ok stored.
